@@ -129,7 +129,8 @@ def classify_mutation(ctx: Ctx, m, fresh_owners) -> str:
         return ''
     evc = ctx.ix.find_cls('Evolvent')
     if (m.func.cls is not None and m.func.cls.name == 'Evolvent') or \
-            (evc is not None and m.func.module is evc.module):
+            (evc is not None and (m.func.module is evc.module or
+                                  m.func.module.name.rsplit('.', 1)[0] == evc.module.name.rsplit('.', 1)[0])):
         # the evolvent's scratch array and call-local work arrays (also through helper functions of its module):
         # re-established by every query (decided under C17)
         return ''
